@@ -82,13 +82,25 @@ def trigger(name):
 
 
 def _walk_no_scopes(node):
-    """Walk an expression/statement without entering nested function/class scopes."""
-    stack = [node]
+    """Walk the parts of a statement/expression that are evaluated in the *current* scope: nested
+    function/class/lambda bodies are not entered (their decorators, defaults, bases are)."""
+    def roots(n):
+        if isinstance(n, (ast.FunctionDef, ast.AsyncFunctionDef)):
+            return list(n.decorator_list) + list(n.args.defaults) + [d for d in n.args.kw_defaults if d is not None]
+        if isinstance(n, ast.ClassDef):
+            return list(n.decorator_list) + list(n.bases) + [k.value for k in n.keywords]
+        if isinstance(n, ast.Lambda):
+            return list(n.args.defaults) + [d for d in n.args.kw_defaults if d is not None]
+        return None
+    r = roots(node)
+    stack = list(r) if r is not None else [node]
     while stack:
         n = stack.pop()
         yield n
         for c in ast.iter_child_nodes(n):
-            if isinstance(c, (ast.FunctionDef, ast.ClassDef, ast.Lambda, ast.AsyncFunctionDef)):
+            r = roots(c)
+            if r is not None:
+                stack.extend(r)
                 continue
             stack.append(c)
 
